@@ -92,6 +92,13 @@ func (data *Data) CreateDataNode(addr, tcpAddr string) error {
 		}
 	}
 
+	// The ID of the meta node can only be shared if no data node uses it
+	// already (the data node that shared it may have moved to another
+	// address since); data node IDs must be unique.
+	if existingID != 0 && data.DataNode(existingID) != nil {
+		existingID = 0
+	}
+
 	// We didn't find an existing node, so assign it a new node ID
 	if existingID == 0 {
 		data.MaxNodeID++
